@@ -90,7 +90,7 @@ def conformance(fixed, dry, results):
             div.append({"prog": prog, "what": "no such scenario"})
             continue
         model_calls = [c for c in vs[0]["calls"] if c]
-        real_calls = [c["name"] for c in dry[prog][2]]
+        real_calls = [c["name"] for c in dry[prog][2] if c["phase"] == "op"]
         # the drops at the successful return are implicit in the model (Finish): the real run may
         # end with the close calls of the dropped OwnedFds
         rest = real_calls[len(model_calls):]
@@ -104,7 +104,7 @@ def conformance(fixed, dry, results):
                     compared += 1
                     leak, _, _ = results[(sc, None)]
                     ncalls = len([c for c in v["calls"][:v["failstep"] - 1] if c])
-                    real_n = len(dry[sc][2])
+                    real_n = len([c for c in dry[sc][2] if c["phase"] == "op"])
                     if leak != (v["leaked"] > 0) or ncalls != real_n:
                         div.append({"prog": prog, "what": "input failure", "model": {"leak": v["leaked"] > 0, "calls": ncalls},
                                     "real": {"leak": leak, "calls": real_n}})
@@ -177,8 +177,8 @@ def window(run):
             name, ret, args = e["name"], e["ret"], e["args"]
             inj = e.get("inj")
             real = inj["real"] if inj else ret
-            if state == "op" and e["src"] == "exe":
-                calls.append({"k": e["k"], "name": name, "ret": ret})
+            if e["src"] == "exe":
+                calls.append({"k": e["k"], "name": name, "ret": ret, "phase": "op" if state == "op" else "drop"})
             if inj:
                 injected = {"k": e["k"], "name": name, "ret": ret, "mode": inj["mode"], "closes_after": 0}
             elif injected is not None and state == "op" and name == "close" and real in (0, -9):
@@ -237,13 +237,15 @@ def run(tier):
             dry[s] = (r, evs, calls)
             plan.append({"scenario": s, "k": None, "errno": None})
             for c in calls:
+                if c["phase"] == "drop" and tier == "quick":
+                    continue   # failures while the caller drops the result: thorough tier only
                 names = [TYPICAL.get(c["name"], "EINVAL")]
-                if tier != "quick":
+                if tier != "quick" and c["phase"] == "op":
                     names += [n for n in COMMON if n not in names]
                     if c["name"] in ("connect", "accept4", "read", "write"):
                         names += [n for n in BRANCHY if n not in names]
                 for n in names:
-                    plan.append({"scenario": s, "k": c["k"], "errno": ERRNO[n], "errname": n, "call": c["name"]})
+                    plan.append({"scenario": s, "k": c["k"], "errno": ERRNO[n], "errname": n, "call": c["name"], "phase": c["phase"]})
     if len(dry) < 40:
         raise core.ToolError("only %d of %d scenarios complete without faults: %s" % (len(dry), len(scens), json.dumps(skipped[:5])))
     scens = [s for s in scens if s in dry]
@@ -316,7 +318,8 @@ def run(tier):
             ret = [e for e in evs if e["ev"] == "return"][0]
             chk.violate(sig, "%s: %s with %s -> result %s, table %s -> %s at return -> %s after drop (handed %s)" % (
                 it["scenario"], kind,
-                "no fault" if it["k"] is None else "call %d (%s #%d) failing with %s" % (it["k"], fname, nth, it["errname"]),
+                "no fault" if it["k"] is None else "call %d (%s #%d%s) failing with %s" % (
+                    it["k"], fname, nth, ", while the result is dropped" if it.get("phase") == "drop" else "", it["errname"]),
                 ret["res"], evs[0]["pre"], ret["snap"], evs[-1]["snap"], ret["handed"]),
                 {"scenario": it["scenario"], "k": it["k"], "errno": it["errno"], "events": evs})
         if n % 37 == 0:
@@ -326,7 +329,8 @@ def run(tier):
     results = {}
     for n, w in verdicts.items():
         it, evs, calls, injected, r = meta[n]
-        if it["k"] is not None and (injected is None or it.get("errname") != TYPICAL.get(it.get("call"), "EINVAL")):
+        if it["k"] is not None and (injected is None or it.get("errname") != TYPICAL.get(it.get("call"), "EINVAL")
+                                    or it.get("phase") == "drop"):
             continue
         leak = "Leak" in w["bad"] or "Leak" in w["snapbad"]
         results[(it["scenario"], it["k"])] = (leak, injected["closes_after"] if injected else 0, it.get("errname"))
@@ -355,7 +359,7 @@ def run(tier):
     chk.extra.update({"scenarios": len(scens), "scenarios_skipped": skipped, "plan_items": len(plan), "windows_judged": len(verdicts),
                       "faults_not_delivered": not_hit, "incomplete_windows": incomplete[:20], "incomplete_count": len(incomplete),
                       "model_vs_proc_drift": drift[:10], "model_checking": mc,
-                      "calls_per_scenario": {s: [c["name"] for c in dry[s][2]] for s in scens}})
+                      "calls_per_scenario": {s: [c["name"] + ("" if c["phase"] == "op" else "(drop)") for c in dry[s][2]] for s in scens}})
     if drift:
         core.log("note: %d windows where the syscall-derived table differs from /proc (judged on both)" % len(drift))
     return chk.finish()
